@@ -75,6 +75,21 @@ Lemma inline_pk_refuted :
   /\ known_C02_inline_pk_survives ipk_base ipk_plan = true.
 Proof. repeat split; try (vm_compute; reflexivity). eexists. vm_compute. reflexivity. Qed.
 
+(* ---- a foreign key added before the key it references (the planner's order for these two actions): fine with
+   foreign_keys=OFF, 'foreign key mismatch' at the rebuild's INSERT with foreign_keys=ON ---- *)
+Definition rbk_base : schema :=
+  [mkTable "u" None [mkCol "idx" (TSimple BigInt) false None None None None None None] [];
+   mkTable "item" None [idcol; mkCol "u_idx" (TSimple BigInt) true None None None None None None] [pk_id]].
+Definition rbk_plan : list action :=
+  [AddConstraint "item" (CForeignKey None ["u_idx"] "u" ["idx"] None None);
+   AddConstraint "u" (CPrimaryKey false ["idx"])].
+Lemma reference_before_key_refuted :
+  (exists s', apply_all rbk_base rbk_plan = Ok s')
+  /\ first_error true rbk_base rbk_plan = Some (1%nat, EForeignKey "item_temp")
+  /\ c02_holds false rbk_base rbk_plan = true
+  /\ known_C02_reference_before_key rbk_base rbk_plan = true.
+Proof. repeat split; try (vm_compute; reflexivity). eexists. vm_compute. reflexivity. Qed.
+
 (* ---- non-vacuity: a two-table plan with a rebuild on which the C02 statement holds in the model, both pragmas ---- *)
 Definition ok_base : schema :=
   [mkTable "u" None [idcol; icol "a"] [pk_id; CIndex None ["a"]];
